@@ -353,6 +353,25 @@ def family_molecules(prop, tier):
         cols2[k - 1] = ("H", 3, None)
         cols2[k + 1] = ("C", 13, None)
         yield (f"alkane-like comb {k}", cols2, [(k + i, k + i + 1) for i in range(k - 1)] + [(i, k + i) for i in range(k)])
+    # sparse multi-component molecules: every set of 2..3 disjoint bonds (and every single bond + one more) on 5-7 atoms
+    # of several elements: few bonds spread over distant indices
+    atom_lists = [["H", "C", "C", "N", "O"], ["H", "C", "N", "O", "Na", "Cl"], ["H", "H", "C", "N", "O", "Cl"],
+                  ["C", "C", "O", "O", "Na", "Cl"], ["H", "C", "N", "O", "F", "Na", "Cl"]]
+
+    def matchings(vs, k):
+        if k == 0:
+            yield []
+            return
+        for i in range(len(vs)):
+            for j in range(i + 1, len(vs)):
+                rest = [v for v in vs[i + 1:] if v != vs[j]]
+                for m in matchings(rest, k - 1):
+                    yield [(vs[i], vs[j])] + m
+    for els in atom_lists:
+        nn = len(els)
+        for k in (2, 3):
+            for mt in matchings(list(range(nn)), k):
+                yield (f"sparse {'+'.join(els)} bonds {mt}", [plain(e) for e in els], mt)
     for k in (10, 12, 16, 17) if tier == "quick" else (9, 10, 11, 12, 16, 17, 18, 24, 25, 33):
         # every pair of labelled positions on a chain: labelled indices on both sides of 9/10, colliding mod 8, ...
         for i, j in combinations(range(k), 2):
